@@ -5,6 +5,7 @@ import Mingus.Model.Scales
 import Mingus.Model.Chords
 import Mingus.Model.Progressions
 import Mingus.Model.Value
+import Mingus.Model.Note
 /- Line-protocol dispatch: function name + decoded arguments → observation. -/
 namespace Mingus
 open Val
@@ -173,7 +174,40 @@ def dispatchValue : String → List Val → Option Val
   | "meter.is_asymmetrical", [int c, v] => (numOf v).map fun n => toVal (Value.isAsymmetrical c n)
   | _, _ => none
 
+open Containers in
+def noteVal (n : Note) : Val := .list [.str n.name, .int n.octave, .int n.channel, .int n.velocity]
+def optInt : Val → Option Int
+  | .int i => some i
+  | _ => Option.none
+
+open Containers in
+def dispatchNote : String → List Val → Option Val
+  | "note.new", [str nm, int o, v, c] => some (match Note.new nm o (optInt v) (optInt c) with
+      | .ok n => noteVal n | .error e => .err e)
+  | "note.int", [str nm, int o] => some (toVal (do let n ← Note.new nm o Option.none Option.none; n.toInt))
+  | "note.from_int", [int i] => some (match Note.fromInt {name := lit "C", octave := 4} i with
+      | .ok n => noteVal n | .error e => .err e)
+  | "note.repr", [str nm, int o] => some (toVal ((Note.new nm o Option.none Option.none).map Note.repr))
+  | "note.cmp", [str a, int ao, str b, int bo] => some (
+      match Note.new a ao Option.none Option.none, Note.new b bo Option.none Option.none with
+      | .ok x, .ok y => (match Note.lt x y, Note.le x y, Note.eq x y, Note.ne x y, Note.ge x y, Note.gt x y with
+        | .ok p, .ok q, .ok r, .ok t, .ok u, .ok w => toVal [p, q, r, t, u, w]
+        | _, _, _, _, _, _ => .err .other)
+      | .error e, _ => .err e
+      | _, .error e => .err e)
+  | "note.to_shorthand", [str nm, int o] => some (toVal ((Note.new nm o Option.none Option.none).map Note.toShorthand))
+  | "note.from_shorthand", [str sh] => some (match Note.fromShorthand {name := lit "C", octave := 4} sh with
+      | .ok n => noteVal n | .error e => .err e)
+  | "note.transpose", [str nm, int o, str iv, Val.bool up] => some (
+      match (do let n ← Note.new nm o Option.none Option.none; n.transpose iv up) with
+      | .ok n => noteVal n | .error e => .err e)
+  | "note.change_octave", [str nm, int o, int d] => some (
+      match Note.new nm o Option.none Option.none with
+      | .ok n => noteVal (n.changeOctave d) | .error e => .err e)
+  | _, _ => none
+
 def dispatch (fn : String) (args : List Val) : Option Val :=
+  (dispatchNote fn args).orElse fun _ =>
   (dispatchValue fn args).orElse fun _ =>
   (dispatchProg fn args).orElse fun _ =>
   (dispatchChords fn args).orElse fun _ =>
